@@ -1048,6 +1048,41 @@ func (x *Exec) specCall(env *SpecEnv, c ECall) SpecVal {
 	case "seqof":
 		v := x.spec(env, c.Args[0])
 		return x.sliceToSeq(env.st, v)
+	case "closureof":
+		// closureof(v, "WaitChannel$1"): v is, on this path, a closure of the
+		// function whose key ends in the given name (decided by the engine's
+		// closure registry: true only for closures built on this path)
+		v := x.spec(env, c.Args[0])
+		want := c.Args[1].(EStr).V
+		if clo, ok := env.st.clos[v.T.S]; ok && strings.HasSuffix(fullKey(clo.Fn), want) {
+			return SpecVal{T: True}
+		}
+		return SpecVal{T: False}
+	case "closurevar":
+		// closurevar(v, "ch"): the current content of the variable captured
+		// under that name by the closure v
+		v := x.spec(env, c.Args[0])
+		name := c.Args[1].(EStr).V
+		clo, ok := env.st.clos[v.T.S]
+		if !ok {
+			unsupported("closurevar: %s is not a closure built on this path", c.Args[0].exprString())
+		}
+		body := clo.Fn
+		for k, fv := range body.FreeVars {
+			if fv.Name() == name && k < len(clo.Binds) {
+				cenv := &SpecEnv{x: x, cfg: env.cfg, st: env.st, old: env.old, vars: map[string]SpecVal{}, pkg: env.pkg, cf: env.cf}
+				cenv.vars["&"+name] = x.valToSpec(env.st, clo.Binds[k], fv.Type())
+				return x.specIdent(cenv, name)
+			}
+		}
+		unsupported("closurevar: no captured variable %s", name)
+	case "recvready":
+		// a blocking receive / select case on this channel was enabled on this path
+		ch := x.specTerm(env, c.Args[0])
+		return SpecVal{T: Select(x.heapGet(env.st, "$recvready", SArr(SInt, SBool)), ch)}
+	case "closedch":
+		ch := x.specTerm(env, c.Args[0])
+		return SpecVal{T: Select(x.heapGet(env.st, "$closed", SArr(SInt, SBool)), ch)}
 	case "oncedone":
 		o := x.specTerm(env, c.Args[0])
 		return SpecVal{T: Select(x.heapGet(env.st, "$oncedone", SArr(SInt, SBool)), o)}
